@@ -957,6 +957,11 @@ func c11GenDirect(r *rand.Rand) *c11Stmt {
 			s.Where = &c11Pred{Op: "and", L: l, R: esc}
 		}
 	}
+	if s.Undoc == "" && r.Intn(14) == 0 {
+		// HAVING written without GROUP BY: the clause must still be reflected in the configuration
+		// (what it means for the rows of a query without aggregation is not checked)
+		s.Having = c11GenHaving(r, c11NumCols[:4])
+	}
 	c11GenOrderLimit(r, s)
 	return s
 }
